@@ -293,6 +293,26 @@ func (r *Report) writeEvidence(nOK, nViol, nKnown, nAdv int) {
 	os.WriteFile(filepath.Join(r.Dir, "evidence", r.Property+".json"), b, 0o644)
 }
 
+// Pending counts what Finish would report as violations: unlisted violated obligations, rules below their
+// confirmed minimum, and an infrastructure error.
+func (r *Report) Pending() int {
+	n := 0
+	for _, o := range r.Obls {
+		if o.Status == Violation && !r.IsOpenKnown(o.Rule, o.Key) {
+			n++
+		}
+	}
+	for rule, min := range r.Minimum {
+		if r.Counts[rule] < min {
+			n++
+		}
+	}
+	if r.InfraErr != "" {
+		n += 1000
+	}
+	return n
+}
+
 // IsOpenKnown reports whether (rule,key) is listed as an open finding of this report's property.
 func (r *Report) IsOpenKnown(rule, key string) bool {
 	for _, f := range r.known.Open {
